@@ -49,6 +49,19 @@ def path_defs(p, before=None):
             defs[e.target] = e.stmt.value
         elif e.kind == 'assign' and isinstance(e.stmt, ast.Assign) and all(isinstance(t, ast.Name) for t in e.stmt.targets):
             defs[e.target] = e.stmt.value
+        elif e.kind == 'assign' and isinstance(e.stmt, ast.Assign) and len(e.stmt.targets) == 1 and isinstance(e.stmt.targets[0], (ast.Tuple, ast.List)) \
+                and all(isinstance(t, ast.Name) for t in e.stmt.targets[0].elts):
+            # a, b = X   ->  a = X[0], b = X[1]   (a, b = (x, y)  ->  a = x, b = y)
+            names = [t.id for t in e.stmt.targets[0].elts]
+            if e.target in names:
+                i = names.index(e.target)
+                v = e.stmt.value
+                if isinstance(v, (ast.Tuple, ast.List)) and len(v.elts) == len(names) and not any(isinstance(x, ast.Starred) for x in v.elts):
+                    defs[e.target] = v.elts[i]
+                else:
+                    defs[e.target] = ast.Subscript(value=v, slice=ast.Constant(value=i), ctx=ast.Load())
+            else:
+                defs.pop(e.target, None)
         elif e.kind in ('assign', 'augname'):
             defs.pop(e.target, None)
     return defs
